@@ -54,6 +54,9 @@ is_5321_local (const char *start, const char *end)
         if (ISCNTRL(ch))
             return inverse(EEAV_LPART_CTRL_CHAR);
         if (!quote) {
+            /* a quoted-string is a whole word: only '.' may follow it */
+            if (cp > start && cp[-1] == '"' && ch != '.')
+                return inverse(EEAV_LPART_MISPLACED_QUOTE);
             switch (ch) {
             case '"': {
                 /* quote-strings are allowed at the start
